@@ -41,6 +41,7 @@ import (
 	"verifharness/pgp"
 	"verifharness/ps"
 	"verifharness/vsix"
+	"verifharness/xap"
 	"verifharness/xsig"
 	"verifharness/ziprw"
 )
@@ -70,6 +71,8 @@ var handlers = map[string]func([]string) string{
 	"XSIG":  xsig.Handle,
 	"MAGIC": magic.Handle,
 	"VSIX":  vsix.Handle,
+	"XAP":   xap.Handle,
+	"MSIS":  c18.FlowHandle,
 }
 
 // gens: property -> generators whose ops make up its correspondence run
@@ -181,12 +184,14 @@ func init() {
 		if p == "C03" || p == "C08" {
 			gens[p] = append(gens[p], forProp(p, ziprw.Gen))
 		}
+		gens[p] = append(gens[p], forProp(p, xap.Gen))
 		if p == "C01" || p == "C02" || p == "C03" || p == "C08" {
 			gens[p] = append(gens[p], forProp(p, e2e.Gen))
 			gens[p] = append(gens[p], forProp(p, xsig.Gen))
 			gens[p] = append(gens[p], forProp(p, deb.Gen))
 			gens[p] = append(gens[p], forProp(p, appx.Gen))
 			gens[p] = append(gens[p], forProp(p, vsix.Gen))
+			gens[p] = append(gens[p], forProp(p, c18.FlowGen))
 		}
 	}
 }
